@@ -359,6 +359,10 @@ func (p *Proxy) handleCONNECT(r responder.Responder, proxyReq *http.Request) err
 		if err := p.handleHTTP(tunnelResponder, req); err != nil {
 			slog.Error("Error processing HTTP request in CONNECT tunnel", "host", proxyReq.Host, "error", err)
 		}
+		// Whatever the handler left unread of this request's body (e.g. when it was answered from the cache)
+		// must not be parsed as the next request of the tunnel.
+		io.Copy(io.Discard, req.Body)
+		req.Body.Close()
 	}
 
 	slog.Debug("Exiting CONNECT tunnel", "host", proxyReq.Host)
